@@ -10,9 +10,11 @@
 // never-inverted object and the parity of Invert calls.
 //
 // A history runs on its own goroutine under recover and a 20 s timer: a panic
-// is a failing outcome (Finding "panic" unless narrowed), a timeout is Finding
-// "hang" (the goroutine is abandoned). Cases are journaled before they run, so
-// that a process-level abort is attributed to its history by the driver.
+// is a failing outcome (Finding "panic" unless narrowed); a history that misses
+// the deadline is run once more with twice the deadline and reported as
+// Finding "hang" if it misses that too (the goroutines are abandoned). Cases
+// are journaled before they run, so that a process-level abort is attributed
+// to its history by the driver.
 package c13
 
 import (
@@ -39,7 +41,7 @@ const hangDeadline = 20 * time.Second
 // guarded runs f on its own goroutine with recover and a deadline.
 // panicFinding (may be nil) narrows the finding class of a panic.
 //
-// A history that misses the deadline is run a second time with three times the
+// A history that misses the deadline is run a second time with twice the
 // deadline before it is reported as a hang: the machine that runs the checks
 // can be oversubscribed tenfold, and a stall of one process must not be
 // reported as a defect of the library. A self-deadlock or an unbounded loop
@@ -512,18 +514,18 @@ func init() {
 		maxOps = "60"
 	}
 	ev.Define("index_history", ev.Options{
-		Rule:  "a pool of 1..6 shapes of the seven Shape types (1/2/3/6 centres, ≤ ~200 edges) and a history of ≤ " + maxOps + " ops on ONE ShapeIndex: Add(pool shape), Build, Reset, and queries made with query objects created at that moment: ContainsPointQuery (3 vertex models: Contains, ContainingShapes, ShapeContains per shape), CrossingEdgeQuery (Crossings per shape, CrossingsEdgeMap, both crossing types), closest/furthest EdgeQuery (FindEdges/Distance, point/edge/cell targets, MaxResults/DistanceLimit/IncludeInteriors/UseBruteForce), full cell walk (VerifIndexCells: cell ids, clipped shapes, containsCenter, edge lists), Len/NumEdges. Oracle: the same query on a fresh index holding fresh copies of the model's shapes in Add order (ids restart after Reset), deep equality (single-result calls: distance only, because ties are broken by Go map order). Remove is outside the property's alphabet and never generated. Non-trivial: some query is answered after ≥ 1 Add onto an already built non-empty index, or after a Reset of a built index.",
-		Quick: 3000, Thorough: 100000, Journal: true}, genIndexHistory, checkIndexHistory)
+		Rule:  "a pool of 1..6 shapes of the seven Shape types (1/2/3/6 centres, ≤ ~200 edges) and a history of ≤ " + maxOps + " ops on ONE ShapeIndex: Add(pool shape), Build, Reset, and queries made with query objects created at that moment: ContainsPointQuery (3 vertex models: Contains, ContainingShapes, ShapeContains per shape), CrossingEdgeQuery (Crossings per shape, CrossingsEdgeMap, both crossing types), closest/furthest EdgeQuery (FindEdges/Distance, point/edge/cell targets, MaxResults/DistanceLimit/IncludeInteriors/UseBruteForce), full cell walk (VerifIndexCells: cell ids, clipped shapes, containsCenter, edge lists), iterator LocatePoint/LocateCellID/End, Len/NumEdges/Shape(id). Oracle: the same query on a fresh index holding fresh copies of the model's shapes in Add order (ids restart after Reset), deep equality (single-result calls: distance only, because ties are broken by Go map order). Remove is outside the property's alphabet and never generated. Non-trivial: some query is answered after ≥ 1 Add onto an already built non-empty index, or after a Reset of a built index.",
+		Quick: 5000, Thorough: 120000, Journal: true}, genIndexHistory, checkIndexHistory)
 	ev.Define("loop_polygon_history", ev.Options{
-		Rule:  "one Loop (regular/star/lattice/cell families, 3..300 vertices with mass on 31..33 and 63..65, 1/4 inverted, plus the special empty and full loops) or one Polygon (1..5 concentric rings, plus the empty and full polygons) and a history of ≤ " + maxOps + " ops: Invert, Normalize (loops), force-build of the internal index, ContainsPoint, ContainsCell/IntersectsCell (cells around the boundary and the loop's own index cells, parents, children), Contains/Intersects with other loops/polygons (both directions; the other object is long-lived too), RectBound/CapBound/Area/TurningAngle/Centroid/ContainsOrigin/IsNormalized/ReferencePoint/vertices, Encode bytes, use as a Shape of an outer index. Oracle 1: a fresh object built from the model (original vertex lists, outer ring reversed iff the number of Inverts is odd): every answer identical, Encode bit-identical. Oracle 2 (construction): ContainsPoint of the never-inverted fresh object XOR parity. Non-trivial: a query after ≥ 1 Invert that happened while the internal index was built (loops > 32 vertices / polygons ≥ 32 vertices), or any query on a special empty/full object after Invert.",
-		Quick: 3000, Thorough: 100000, Journal: true}, genLoopHistory, checkLoopHistory)
+		Rule:  "one Loop (regular/star/lattice/cell families, 3..300 vertices with mass on 31..33 and 63..65, 1/4 inverted, plus the special empty and full loops) or one Polygon (1..5 concentric rings, plus the empty and full polygons) and a history of ≤ " + maxOps + " ops: Invert, Normalize (loops), force-build of the internal index, ContainsPoint, ContainsCell/IntersectsCell (cells around the boundary and the loop's own index cells, parents, children), Contains/Intersects with other loops/polygons (both directions; the other object is long-lived too), RectBound/CapBound/Area/TurningAngle/Centroid/ContainsOrigin/IsNormalized/ReferencePoint/vertices, Encode bytes, use as a Shape of an outer index. Oracle 1: a fresh object built from the model (original vertex lists, outer ring reversed iff the number of Inverts is odd): every answer identical, Encode bit-identical. Oracle 2 (construction): ContainsPoint of the never-inverted fresh object XOR parity. Non-trivial: a query after ≥ 1 Invert that happened while the internal index was built (by a Build op, a cell or relation query, or an indexed ContainsPoint: loops > 32 vertices / polygons ≥ 32 vertices), or any query on a special empty/full object after Invert.",
+		Quick: 5000, Thorough: 120000, Journal: true}, genLoopHistory, checkLoopHistory)
 	ev.Define("edge_query_reuse", ev.Options{
 		Rule:  "a fixed index (1..6 shapes, brute-force and optimized sizes) and ONE closest or furthest EdgeQuery configured once (MaxResults, DistanceLimit, MaxError, IncludeInteriors, UseBruteForce) that answers ≤ " + maxOps + " calls: FindEdges, Distance, IsDistanceLess/Greater, IsConservativeDistanceLessOrEqual/GreaterOrEqual with varying point/edge/cell/ShapeIndex targets and thresholds drawn around real distances, Reset, and re-creation of the query from the caller's same options object. Oracle: a new query built from newly built options with the configured values, on a fresh copy of the index, with a new target object. Target objects are new per call (FreshTargets) or shared between calls; a failure that needs a shared ShapeIndex target is classed target-reuse-maxerror. Non-trivial: a FindEdges/Distance call answered after a threshold or single-result call on the same query.",
-		Quick: 3000, Thorough: 100000, Journal: true}, genEQReuse, checkEQReuse)
+		Quick: 4000, Thorough: 120000, Journal: true}, genEQReuse, checkEQReuse)
 	ev.Define("point_crossing_query_reuse", ev.Options{
 		Rule:  "a fixed index and long-lived query objects (one ContainsPointQuery per vertex model, one CrossingEdgeQuery) answering ≤ " + maxOps + " calls with varying points/edges/shapes/crossing types; oracle: new query objects on a fresh copy of the index per call. Non-trivial: ≥ 2 calls on one object, index with ≥ 2 cells.",
-		Quick: 2000, Thorough: 60000, Journal: true}, genPQReuse, checkPQReuse)
+		Quick: 2500, Thorough: 80000, Journal: true}, genPQReuse, checkPQReuse)
 	ev.Define("stale_query_objects", ev.Options{
 		Rule:  "query objects (ContainsPointQuery, CrossingEdgeQuery, closest EdgeQuery) created on an index BEFORE a later Add (optionally used once before it, optionally followed by an explicit Build, optionally EdgeQuery.Reset) and then asked; oracle: new query objects on a fresh index with all shapes. Kept separate because the defect (Finding stale-query-object) would mask everything else; Counts record which method disagreed. Non-trivial: the later shape changes some fresh answer.",
-		Quick: 1500, Thorough: 40000, Journal: true}, genStale, checkStale)
+		Quick: 1500, Thorough: 60000, Journal: true}, genStale, checkStale)
 }
